@@ -181,8 +181,10 @@ int FsDropInService::prepDropInWatcherEventLoop(const std::string& dir) {
     return 1;
   }
 
-  uint32_t mask = IN_DELETE | IN_MODIFY | IN_MOVE | IN_ONLYDIR | IN_MOVE_SELF |
-      IN_DELETE_SELF;
+  // IN_CREATE: a file published with link(2) (ln, O_TMPFILE + linkat) appears
+  // complete, without any write or rename event
+  uint32_t mask = IN_CREATE | IN_DELETE | IN_MODIFY | IN_MOVE | IN_ONLYDIR |
+      IN_MOVE_SELF | IN_DELETE_SELF;
   if ((inotifywd_ = ::inotify_add_watch(inotifyfd_, dir.c_str(), mask)) < 0) {
     OLOG << "inotify_add_watch: " << Util::strerror_r();
     return 1;
@@ -333,7 +335,7 @@ int FsDropInService::processDropInWatcher(int fd) {
          ptr += sizeof(struct inotify_event) + event->len) {
       event = reinterpret_cast<const struct inotify_event*>(ptr);
 
-      if (event->mask & (IN_MOVED_TO | IN_MODIFY)) {
+      if (event->mask & (IN_CREATE | IN_MOVED_TO | IN_MODIFY)) {
         // Remove and re-add drop in if a file has been added to the
         // watched directory
         processDropInAdd(event->name);
